@@ -234,11 +234,15 @@ def run(ctx: Ctx) -> None:
         run_ = [n for n in c.nodes if n.kind == "stmt" and isinstance(n.stmt, ast.Expr) and isinstance(n.stmt.value, ast.Call) and isinstance(n.stmt.value.func, ast.Attribute) and n.stmt.value.func.attr == "parse"]
         rets = [n for n in c.nodes if n.kind == "stmt" and isinstance(n.stmt, ast.Return)]
         why = []
+        # `CxxParser(...).parse()`: the parser is built where it is run
+        direct = len(run_) == 1 and not par and isinstance(run_[0].stmt.value.func.value, ast.Call) and norm(run_[0].stmt.value.func.value.func) == "CxxParser"
+        if direct:
+            par = [run_[0]]
         ok = len(vis) == 1 and len(par) == 1 and len(run_) == 1 and len(rets) == 1
         if ok:
             v = vis[0].stmt.targets[0].id
-            p = par[0].stmt.targets[0].id
-            call = par[0].stmt.value
+            p = norm(run_[0].stmt.value.func.value) if direct else par[0].stmt.targets[0].id
+            call = run_[0].stmt.value.func.value if direct else par[0].stmt.value
             args = [norm(a) for a in call.args]
             if len(args) < 4 or args[0] != "filename" or args[1] != "content" or args[2] != v or args[3] != "options":
                 ok = False
